@@ -6,6 +6,18 @@ ROOT = os.path.dirname(os.path.dirname(os.path.abspath(__file__)))
 
 # property id -> (technique, level text, level note, design ref)
 CHECKS = {
+ "C18": ("static structural clauses on the plugin packages: STABLE-MEANS-STABLE (who-may-call unstable sorts), NO-INPUT-MUTATION (taint of received slices through slicing/conversions/sub-slice-returning stdlib calls to writes and appends), NO-POST-DELIVERY-MUTATION (reused emit buffers), FLAVOUR-AGREEMENT (per-byte unicode classification), plus the core-contract rules (ERR-RESULT-USED, RELEASE, CTX-PROVENANCE, STATE-LEVEL, ERR-PROPAGATION, USER-FN-CONTEXT) re-run with plugin scope",
+         "Narrow claim. Equality of each emitted value with the wrapped library function on all inputs, round trips and sortedness are value-level and NOT decided. Decided on the 12 plugin packages the property names: stable means stable, no write through a received slice or its derivatives, no emission of a reused buffer, no per-byte classification in the byte flavour, error results become Error notifications, and the core contract clauses (release, context, per-subscription state). Found and fixed SortStableFunc, NewIOReader and bytes.Ellipsis; bytes.Words' byte/rune mismatch is test-pinned and recorded.",
+         "Trusted: documented aliasing behaviour of the listed standard-library functions; console writes (os.Stdout/Stderr) are not lifted functions.",
+         "DESIGN.md section 4, C18"),
+ "C19": ("static analysis of ee/plugins/prometheus: FORWARDER (each instrumentation operator is the identity on notifications and contexts), COUNT-ONCE (placement and multiplicity of metric updates), LICENCE-BOTH-ARMS (licence evaluated in the subscribe closure, arms built from the same operators, guarded early returns), PIPE-ARMS (generated PipeK: plain arm vs interleaved observers with matching name/position/index), RELEASE, NO-DOWNGRADE, STATE-LEVEL with plugin scope",
+         "Static discipline check: transparency follows from every instrumentation operator forwarding each notification exactly once, unconditionally, with its own payload and a context derived from the received one (or handing the destination upstream), given C01-C03/C09 for the core; counter exactness follows from each metric update sitting unconditionally in the slot its operator names, once per event; all 24 generated PipeK are checked arm against arm (the type checker cannot see an arg3/arg4 slip). Numeric equality with a trace is the argued consequence, not measured. The OpenTelemetry plugin cannot be type-checked offline and is out of reach.",
+         "Trusted: core properties; prometheus client semantics.",
+         "DESIGN.md section 4, C19"),
+ "C20": ("static structural clauses: FILTER-SHAPE (the ulule limiter is a synchronous per-item filter: one store query with the item's key and context, at most one unmodified forward guarded by !Reached and err == nil, nothing buffered, terminals propagated), NATIVE-COMPOSITION (parameter plumbing of the native limiter), ERR-RESULT-USED / ERR-PROPAGATION / RELEASE / CTX-PROVENANCE with plugin scope",
+         "Narrow claim. The quota per time window is NOT decided (clock, store, and run-time behaviour of GroupBy/WindowWhen/MergeAll). Decided: the structural reasons for per-key order, no duplication and propagation of terminals in the ulule limiter, the conversion of store errors into Error notifications, and that the native limiter's count/interval/key parameters reach Take/Interval/GroupBy.",
+         "Trusted: ulule/limiter's Get/Reached semantics.",
+         "DESIGN.md section 4, C20"),
  "C04": ("static structural clauses only: ADAPTER (delegating variants are pure adapters), ALIAS (aliases forward every parameter once), PIPE (typed PipeN/PipeOpN apply operators in order), NO-POST-DELIVERY-MUTATION (an emitted slice/map is re-bound before being written again)",
          "Narrow claim. What each operator computes on every input is NOT decidable statically and is not claimed. Decided are the clauses of the property that are visible in the code's shape: 67 delegating variants are observationally identical to their base form because their adapter literal calls the user function once with its own parameters and returns the right context; 24 aliases forward all parameters; 50 typed pipe functions apply operators in order (composition); no retained container is modified after delivery.",
          "Trusted: go/types. Base forms' values, boundaries and the reflective Pipe are out of reach.",
